@@ -6,6 +6,8 @@ CONSTANTS
   MaxNow = 3
   EnvOps = {"drain", "fail", "abort"}
   VirtualClock = TRUE
+  Instant = FALSE
+  UnstartedKillsInterval = TRUE
 INVARIANTS
-  TypeOk AfterOnce AfterResult NeverEarly Exact AbortStops NoDeliveryToDead HandledInOrder IntervalEnds Reasons
+  TypeOk AfterOnce AfterResult NeverEarly Exact AbortStops NoDeliveryToDead HandledInOrder IntervalEnds Reasons IntervalSurvivesStart
 CHECK_DEADLOCK FALSE
